@@ -11,6 +11,7 @@ L7  the reader decodes as many array elements as the type says (not as the bit s
 L8  the literal entry point returns Ok only when the token stream is exhausted and no error was recorded
 L9  a parser function that consumed an opening bracket consumes the matching closing bracket on every path to Ok
 L11 the type checker compares the end of a range literal with the max of its element type (typed and untyped ranges)
+L12 every GarbleProgram carries the const sizes computed by the compilation (compile() included)
 L10 literal_arg / parse_arg / set_literal / parse_literal test or parse against the parameter type with const sizes resolved
 """
 from .. import mir
@@ -623,7 +624,7 @@ def rule_l7(ctx):
 
 
 def run(ctx):
-    return ctx.run_rules([rule_l1, rule_l1b, rule_l2, rule_l3, rule_l4, rule_l5, rule_l6, rule_l7, rule_l8, rule_l9, rule_l10, rule_l11])
+    return ctx.run_rules([rule_l1, rule_l1b, rule_l2, rule_l3, rule_l4, rule_l5, rule_l6, rule_l7, rule_l8, rule_l9, rule_l10, rule_l11, rule_l12])
 
 
 # ---- the literal parser ------------------------------------------------------------------------------
@@ -932,4 +933,44 @@ def rule_l11(ctx):
             res.bad(Finding("L11", fid, "range end not compared with the element type's max",
                             "%s the exclusive end of the range is never compared with max() of its number type: `250u8..260` is accepted and lowered as 250..255, 0, 1, 2, 3" % what,
                             ctx.fn(fid)["sp"]))
+    return res
+
+
+def rule_l12(ctx):
+    """Encoding, decoding and type tests resolve `[T; N]` through GarbleProgram::const_sizes: every GarbleProgram must carry the
+    const sizes the compilation computed (also for consts the program defines itself), else parse_output / literal_arg panic."""
+    res = RuleResult("L12", "every GarbleProgram carries the const sizes computed by the compilation")
+    n = 0
+    for f in ctx.fns.values():
+        if not f.get("mir") or not f["sp"][0].startswith("src/") or f.get("from_expansion"):
+            continue
+        body = ctx.body(f["id"])
+        for b, blk in enumerate(body.blocks):
+            if blk["cleanup"]:
+                continue
+            for st in blk["stmts"]:
+                if st["k"] == "assign" and st["rv"]["k"] == "aggregate" and (st["rv"].get("adt") or "").endswith("GarbleProgram"):
+                    n += 1
+                    fields = st["rv"].get("fields") or []
+                    if "const_sizes" not in fields:
+                        raise AnchorMissing("L12: GarbleProgram has no const_sizes field")
+                    op = st["rv"]["ops"][fields.index("const_sizes")]
+                    roots = body.trace_operand(op) if op["k"] in ("copy", "move") else set()
+
+                    def computed(r, p):
+                        if r[0] != "call":
+                            return False
+                        if "compile_with_constants" in str(r[2]):
+                            return True
+                        if str(r[2]).endswith("Try>::branch"):     # `?` on the result
+                            return all(rr[0] == "call" and "compile_with_constants" in str(rr[2]) for (rr, pp) in body.trace_operand(body.term(r[1])["args"][0]))
+                        return False
+                    if roots and all(computed(r, p) for (r, p) in roots):
+                        res.ok({"function": f["id"], "line": st["sp"][1], "verdict": "const_sizes is the third result of compile_with_constants"})
+                    else:
+                        res.bad(Finding("L12", f["id"], "GarbleProgram built without the computed const sizes",
+                                        "const_sizes does not come from compile_with_constants: for `const N: usize = 2usize; pub fn main(x: u8) -> [u8; N]` parse_output, "
+                                        "literal_arg and parse_arg unwrap a missing size", st["sp"]))
+    if n < 1:
+        raise AnchorMissing("L12: no construction of GarbleProgram found")
     return res
